@@ -132,8 +132,23 @@ func genShape(rnd interface {
 		sh.name = "derived"
 		sh.ids = "x0.id"
 		inner := "SELECT * FROM " + t.Name
-		if rnd.Intn(2) == 0 {
+		switch rnd.Intn(5) {
+		case 0, 1:
 			inner += " WHERE " + simple(g6blib.Refs(t, t.Name))
+		case 2:
+			// a LIMIT (total order) inside the derived table: an outer filter does not commute with it and
+			// must not be pushed below it
+			inner += fmt.Sprintf(" ORDER BY id LIMIT %d", 1+rnd.Intn(6))
+			if rnd.Intn(2) == 0 {
+				inner += fmt.Sprintf(" OFFSET %d", 1+rnd.Intn(3))
+			}
+			sh.name = "derived-limit"
+		case 3:
+			// a window function inside the derived table: row numbers / running sums are computed over all
+			// rows, not over the rows an outer filter keeps
+			inner = "SELECT " + t.Name + ".*, ROW_NUMBER() OVER (ORDER BY id) AS rn__, SUM(id) OVER (ORDER BY id) AS rs__ FROM " + t.Name
+			sh.ids = "x0.id, x0.rn__, x0.rs__"
+			sh.name = "derived-window"
 		}
 		sh.from = "FROM (" + inner + ") x0"
 		sh.scope = g6blib.Refs(t, "x0")
